@@ -3,7 +3,7 @@ import vpdriver
 PROP = {
     "ready": True,
     "harness": ["harness/C13.cpp"],
-    "units": vpdriver.libc_units(["stdio/sprintf.c", "stdlib/atol.c", "string/strlen.c"]) + [
+    "units": vpdriver.libc_units(["stdio/sprintf.c", "stdio/fdprintf.c", "stdio/fdputc.c", "stdlib/atol.c", "string/strlen.c"]) + [
         {"src": "R:igris/util/printf_impl.c", "group": "igc_", "flags": vpdriver.LIBC_FLAGS},
     ],
     "targets": [
